@@ -26,6 +26,8 @@ def opOf2 (op : String) (ts : List String) : Option (Nat × AllocTree) :=
   let a : G := ⟨g "arank", g "asize", g "ab2k"⟩
   let k : K := ⟨g "krin", g "krout", g "ksize", g "kb2k", g "dnum", g "dsize"⟩
   let t : K := ⟨g "rank", g "rank", g "tsize", g "tb2k", g "tdnum", g "tdsize"⟩
+  -- tensor key: rank_in = pairs(rank), rank_out = rank
+  let t2 : K := ⟨pairs (g "rank"), g "rank", g "tsize", g "tb2k", g "tdnum", g "tdsize"⟩
   let lwe : L := ⟨g "lsize", g "lb2k"⟩
   let alwe : L := ⟨g "alsize", g "alb2k"⟩
   let same : Bool := res.b2k == a.b2k && res.size == a.size && res.rank == a.rank
@@ -66,6 +68,15 @@ def opOf2 (op : String) (ts : List String) : Option (Nat × AllocTree) :=
   | "glwe_tensor_decrypt" => some (tbGlweTensorDecrypt be n res, treeGlweTensorDecrypt be n res)
   | "glwe_pack" => some (tbGlwePack be n res k, treeGlwePack be n (g "rounds") (g "gap") res res k)
   | "glwe_packer_add" => some (tbGlwePacker be n res k, treeGlwePackerAdd be n res k)
+  | "glwe_tensor_relinearize" => some (tbGlweTensorRelinearize be n a t2, treeGlweTensorRelinearize be n (g "tskuse") a t2)
+  | "cswap" => some (tbCswap be n res a k, treeCswap be n res a k)
+  | "ckks_rotate" => some (tbCkksRotate be n res k, treeCkksRotate be n res k)
+  | "ckks_pt_vec_znx" => some (tbCkksPtVecZnx n, treeCkksPtVecZnx n)
+  | "ckks_pt_vec_rnx" => some (tbCkksPtVecRnx n (ceilDiv (g "ptk") res.b2k), .take (vecBytes n 1 (ceilDiv (g "ptk") res.b2k)) (treeCkksPtVecZnx n))
+  | "ckks_extract_pt" => some (tbCkksExtractPt n, altList [treeRsh n, treeLsh n])
+  | "ckks_encrypt_sk" => some (tbCkksEncryptSk be n res.size, treeCkksEncryptSk be n res)
+  | "ckks_decrypt" => some (tbCkksDecrypt be n res.size, treeCkksDecrypt be n res)
+  | "ckks_mul_pt_const" => some (tbCkksMulPtConst be n res a (ceilDiv (g "ptk") res.b2k), .done)
   | "glwe_mul_const" => some (tbGlweMulConst be n res a (g "bsize"), treeGlweMulConst be n (g "off") res a (g "bsize"))
   | "glwe_mul_const_assign" => some (tbGlweMulConst be n res res (g "bsize"), treeGlweMulConstAssign be n res (g "bsize"))
   | _ => none
